@@ -1,10 +1,10 @@
 //! Per-state probes (run on copies, the explored state is untouched).
 
-use crate::hx::{drain_trace, Finding, HxCfg};
+use crate::hx::{drain_trace, drain_trace_owned, Finding, HxCfg};
 use crate::menu::{dat_bytes, lab, lab_text};
 use crate::model::{Model, Op};
 use crate::parse::{self, PVertex};
-use crate::real::{guarded, kids_of, reload, replay, thread_file};
+use crate::real::{exact_copy, guarded, kids_of, reload, replay, thread_file};
 use rustc_hash::{FxHashMap, FxHashSet};
 use sodg::{Label, Sodg};
 use std::collections::{BTreeMap, BTreeSet};
@@ -417,7 +417,16 @@ pub fn future_trace<const N: usize>(g: &Sodg<N>, keys: &[usize]) -> Vec<String> 
     t.push("--".to_string());
     t.extend(drain_trace(g, keys, true));
     t.push("--".to_string());
-    if let Ok(mut c) = guarded(|| g.clone()) {
+    if let Some(c) = exact_copy(g) {
+        t.extend(next_ids_owned(c));
+    }
+    t
+}
+
+/// the next two ids an object we own hands out (each added)
+fn next_ids_owned<const N: usize>(mut c: Sodg<N>) -> Vec<String> {
+    let mut t = vec![];
+    {
         for _ in 0..2 {
             let free = guarded(|| c.keys().len()).unwrap_or(0) < c.verif_snapshot().vertices.len();
             if !free {
@@ -464,7 +473,25 @@ pub fn clone_probe<const N: usize>(cfg: &HxCfg, g: &Sodg<N>, m: &Model, hist: &d
     }
     // same future: reads in both orders, ids handed out
     let keys = m.keys();
-    let (fa, fb) = (future_trace_owned(orig2, &keys), future_trace(&c, &keys));
+    // the original's future is computed on objects rebuilt from scratch (no clone() involved);
+    // the clone's future on raw clones of the clone
+    let (Ok(orig3), Ok(orig4)) = (replay::<N>(cfg.cap, &h), replay::<N>(cfg.cap, &h)) else { return };
+    let mut fa = drain_trace_owned(orig2, &keys, false);
+    fa.push("--".to_string());
+    fa.extend(drain_trace_owned(orig3, &keys, true));
+    fa.push("--".to_string());
+    fa.extend(next_ids_owned(orig4));
+    let mut fb = vec![];
+    match (guarded(|| c.clone()), guarded(|| c.clone()), guarded(|| c.clone())) {
+        (Ok(c1), Ok(c2), Ok(c3)) => {
+            fb.extend(drain_trace_owned(c1, &keys, false));
+            fb.push("--".to_string());
+            fb.extend(drain_trace_owned(c2, &keys, true));
+            fb.push("--".to_string());
+            fb.extend(next_ids_owned(c3));
+        }
+        _ => fb.push("clone() of the clone panicked".to_string()),
+    }
     if fa != fb {
         let i = fa.iter().zip(fb.iter()).position(|(a, b)| a != b).unwrap_or(fa.len().min(fb.len()));
         out.push(Finding::new("clone-future-differs", tags, format!("given the same calls the clone behaves differently: original {:?}, clone {:?}", fa.get(i), fb.get(i))));
@@ -502,13 +529,6 @@ pub fn clone_probe<const N: usize>(cfg: &HxCfg, g: &Sodg<N>, m: &Model, hist: &d
         }
         break; // one mutation of the original is enough per state; the model no longer describes `o`
     }
-}
-
-/// future_trace for an object we own and that never went through clone() itself:
-/// the ascending drain runs on the object, the rest on rebuilt copies is not
-/// possible without clone(), so the remaining parts use clones of it (taken first).
-fn future_trace_owned<const N: usize>(g: Sodg<N>, keys: &[usize]) -> Vec<String> {
-    future_trace(&g, keys)
 }
 
 pub fn reload_probe<const N: usize>(g: &Sodg<N>, m: &Model, out: &mut Vec<Finding>, counters: &mut BTreeMap<&'static str, u64>) -> Option<Vec<u8>> {
@@ -556,7 +576,7 @@ pub fn reload_probe<const N: usize>(g: &Sodg<N>, m: &Model, out: &mut Vec<Findin
             }
             // the restarted allocator still has to hand out an absent id below the capacity
             if keys.len() < m.cap {
-                if let Ok(mut lc) = guarded(|| l.clone()) {
+                if let Some(mut lc) = exact_copy(&l) {
                     match guarded(|| lc.next_id()) {
                         Ok(id) => {
                             if id >= m.cap || keys.contains(&id) {
